@@ -64,7 +64,12 @@ static Outcome execute(const Plan & plan, const RunCtx & ctx)
   Outcome o;
   if (!s) { o.verdict = "harness-error"; o.detail = "unknown suite " + plan.suite; return o; }
   try {
-    o = s->run(plan, ctx);
+    for (const Plan & q : plan.pre) {
+      const Suite * sq = find_suite(q.suite);
+      if (sq) { try { (void)sq->run(q, ctx); } catch (...) {} }
+    }
+    if (plan.pre.empty()) o = s->run(plan, ctx);
+    else { Plan main = plan; main.pre.clear(); o = s->run(main, ctx); }
   } catch (std::exception & e) {
     o.verdict = "harness-error"; o.detail = std::string("uncaught in suite: ") + e.what();
   } catch (...) {
@@ -87,7 +92,8 @@ static void classify_san_log(pid_t pid, Outcome & o)
   std::string txt = read_file(path);
   if (txt.empty()) return;
   std::istringstream in(txt);
-  std::string line, kind, frame;
+  std::string line, kind, frame, harness_frame;
+  bool first_stack_done = false;
   while (std::getline(in, line)) {
     if (kind.empty()) {
       size_t p;
@@ -112,8 +118,13 @@ static void classify_san_log(pid_t pid, Outcome & o)
         kind = "glibcxx-assertion";
       }
     }
-    if (!kind.empty() && frame.empty()) {
+    if (!kind.empty() && line.empty()) first_stack_done = true;
+    if (!kind.empty() && frame.empty() && !first_stack_done) {
       size_t r = line.find("/repo/");
+      if (r == std::string::npos && harness_frame.empty() && line.find("#") != std::string::npos) {
+        size_t h = line.find("/verif/sim/");
+        if (h != std::string::npos) { harness_frame = line.substr(h); size_t sp = harness_frame.find_first_of(" \t)"); if (sp != std::string::npos) harness_frame = harness_frame.substr(0, sp); }
+      }
       if (r != std::string::npos && line.find("#") != std::string::npos) {
         std::string loc = line.substr(r);
         size_t sp = loc.find_first_of(" \t)");
@@ -127,6 +138,7 @@ static void classify_san_log(pid_t pid, Outcome & o)
   }
   if (!kind.empty()) {
     o.cls = "sanitizer";
+    if (frame.empty() && !harness_frame.empty()) frame = "HARNESS:" + harness_frame;
     o.sig = kind + "@" + (frame.empty() ? "?" : frame);
     o.detail = "sanitizer report (" + path + "): " + kind + " at " + frame;
   }
@@ -196,6 +208,7 @@ struct Worker
   std::string suite; u64 idx = 0;
   double t0 = 0;
   std::string buf;
+  std::vector<std::pair<std::string, u64>> hist; // runs completed by this process, in order
 };
 
 static void worker_main(int in_fd, int out_fd, u64 seed, const RunCtx & ctx)
@@ -252,7 +265,7 @@ struct Shrinker
   const Suite * suite;
   RunCtx ctx;
   std::string prop, cls, sigclass;
-  int tests = 0, max_tests = 400;
+  int tests = 0, max_tests = 500;
   double deadline;
   double per_run_timeout;
 
@@ -267,6 +280,33 @@ struct Shrinker
 
   Plan run(Plan p)
   {
+    // 0. ddmin over the prelude plans (whole plans are the unit), then over the ops inside the survivors
+    if (!p.pre.empty()) {
+      size_t n = 2;
+      while (p.pre.size() >= 1 && tests < max_tests && now_s() < deadline) {
+        { Plan q = p; q.pre.clear(); if (test(q)) { p = q; break; } }
+        if (p.pre.size() == 1) break;
+        size_t chunk = (p.pre.size() + n - 1) / n;
+        bool reduced = false;
+        // try keeping only one chunk first (fast path for a single culprit), then dropping chunks
+        for (size_t start = 0; start < p.pre.size() && !reduced; start += chunk) {
+          Plan q = p; q.pre.assign(p.pre.begin() + (long)start, p.pre.begin() + (long)std::min(start + chunk, p.pre.size()));
+          if (test(q)) { p = q; n = 2; reduced = true; }
+        }
+        for (size_t start = 0; start < p.pre.size() && !reduced; start += chunk) {
+          Plan q = p; q.pre.erase(q.pre.begin() + (long)start, q.pre.begin() + (long)std::min(start + chunk, p.pre.size()));
+          if (test(q)) { p = q; n = std::max<size_t>(n - 1, 2); reduced = true; }
+        }
+        if (!reduced) { if (chunk <= 1) break; n = std::min(n * 2, p.pre.size()); }
+      }
+      for (size_t k = 0; k < p.pre.size(); k++) {
+        for (size_t i = 0; i < p.pre[k].ops.size() && tests < max_tests && now_s() < deadline; i++) {
+          if (!droppable(p.pre[k].ops[i])) continue;
+          Plan q = p; q.pre[k].ops.erase(q.pre[k].ops.begin() + (long)i);
+          if (test(q)) { p = q; i--; }
+        }
+      }
+    }
     // 1. ddmin over the op list
     size_t n = 2;
     while (p.ops.size() >= 2 && tests < max_tests && now_s() < deadline) {
@@ -327,7 +367,7 @@ struct Agg
   }
 };
 
-struct Suspect { std::string suite; u64 idx; Outcome o; };
+struct Suspect { std::string suite; u64 idx; Outcome o; std::vector<std::pair<std::string, u64>> hist; };
 
 struct Found { std::string prop, cls, sig, detail, replay; int ops_before, ops_after, shrink_tests; };
 
@@ -409,7 +449,7 @@ static int cmd_check(std::map<std::string, std::string> & args)
     return true;
   };
 
-  auto record = [&](const std::string & sname, u64 idx, const Outcome & o) {
+  auto record = [&](const std::string & sname, u64 idx, const Outcome & o, const std::vector<std::pair<std::string, u64>> & hist) {
     auto & tm = traces[sname];
     auto it = tm.find(idx);
     if (it != tm.end()) { // determinism re-run
@@ -430,7 +470,7 @@ static int cmd_check(std::map<std::string, std::string> & args)
     else if (o.violated()) {
       agg.violations++;
       std::string key = o.prop + "|" + o.cls + "|" + o.sig;
-      if (suspect_counts[key]++ == 0) suspects.push_back({sname, idx, o});
+      if (suspect_counts[key]++ == 0) suspects.push_back({sname, idx, o, hist});
     }
   };
 
@@ -456,7 +496,8 @@ static int cmd_check(std::map<std::string, std::string> & args)
             Outcome o;
             Outcome::parse_line(w.buf.substr(0, nl), o);
             w.buf.erase(0, nl + 1);
-            record(w.suite, w.idx, o);
+            record(w.suite, w.idx, o, w.hist);
+            if (w.hist.size() < 50000) w.hist.push_back({w.suite, w.idx});
             w.busy = false; active--;
             if (assign(w)) active++;
           }
@@ -479,7 +520,7 @@ static int cmd_check(std::map<std::string, std::string> & args)
             classify_san_log(w.pid, o);
           }
           traces[w.suite].erase(w.idx);
-          record(w.suite, w.idx, o);
+          record(w.suite, w.idx, o, w.hist);
           active--;
         }
         Worker nw;
@@ -513,6 +554,19 @@ static int cmd_check(std::map<std::string, std::string> & args)
     double to = std::max(run_timeout, 5.0);
     Outcome a = run_fresh(plan, ctx, to), b = run_fresh(plan, ctx, to);
     bool repro = a.violated() && b.violated() && a.cls == b.cls && a.trace == b.trace && a.cls == sp.o.cls;
+    if (!repro && !sp.hist.empty() && !(a.violated() || b.violated())) {
+      // the verdict may depend on process-wide state left by the runs this worker executed before:
+      // replay its whole history in a fresh process in front of the suspect
+      Plan bundle = plan;
+      for (auto & h : sp.hist) { const Suite * hs = find_suite(h.first); if (hs) bundle.pre.push_back(hs->gen(seed, h.second, ctx)); }
+      double to2 = to + 0.02 * (double)bundle.pre.size() + 30;
+      Outcome a2 = run_fresh(bundle, ctx, to2), b2 = run_fresh(bundle, ctx, to2);
+      if (a2.violated() && b2.violated() && a2.cls == b2.cls && a2.trace == b2.trace && a2.cls == sp.o.cls) {
+        printf("note: suspect %s#%llu reproduces only after the %zu runs its worker executed before it (process-wide state); shrinking the prelude\n",
+               sp.suite.c_str(), (unsigned long long)sp.idx, bundle.pre.size());
+        plan = bundle; a = a2; b = b2; repro = true; to = to2;
+      }
+    }
     if (!repro) {
       printf("HARNESS-NONDETERMINISM: suspect %s#%llu (%s/%s) did not reproduce identically in fresh processes: worker[%s %s] fresh1[%s %s %llu] fresh2[%s %s %llu]\n",
              sp.suite.c_str(), (unsigned long long)sp.idx, sp.o.prop.c_str(), sp.o.cls.c_str(), sp.o.verdict.c_str(), sp.o.sig.c_str(),
